@@ -7,7 +7,9 @@ import pancore
 
 PRELUDE = '''boom := {|i| raise Err.new("E" + i.S)}
 stop := {|i| raise StopIterErr.new("E" + i.S)}
-beh := {|k, i| return nil if k == 'n; return boom(i) if k == 'r; return stop(i) if k == 's; i * 10}
+INIL := Nil.bear({q: 1}).new
+ARRD := Arr.bear({_iter: m{ <{|i| yield self[i] if i >= 0; recur(i - 1)}>.new(.len - 1) }})
+beh := {|k, i| return nil if k == 'n; return INIL if k == 'i; return boom(i) if k == 'r; return stop(i) if k == 's; i * 10}
 mk := {|i, B| {i: i, m: {|self| ("c" + self.i.S).p; beh(B[self.i], self.i)}}}
 '''
 
@@ -22,6 +24,11 @@ RECVS = {
     "map": ("%{7: 1, 8: 2, 9: 3}", "x[1]", ["[7, 1]", "[8, 2]", "[9, 3]"]),
     "iter": ("<{|i| yield i if i < 4; recur(i + 1)}>.new(1)", "x", ["1", "2", "3"]),
     "arrnil": ("[1, nil, 3]", "%{1: 1, nil: 2, 3: 3}[x]", ["1", "nil", "3"]),
+    # an element that is an INHERITED nil (instance of a descendant of Nil) is nil in every context and every call form
+    "arrinil": ("[1, INIL, 3]", "(2 if x.nil? else x)", ["1", "nil", "3"]),
+    # a descendant of Arr whose prototype defines its own _iter (here: from the last element to the first): every chain
+    # context iterates the receiver with ITS iterator
+    "arrdesc": ("ARRD.new([3, 2, 1])", "x", ["1", "2", "3"]),
 }
 
 
@@ -46,7 +53,7 @@ def oracle_list(add, beh, elems, carg):
                 out.append(e)
                 continue
             return trace, ("err", "E%d" % n)
-        if b == "n":
+        if b in "ni":
             if add == "~":
                 out.append(e)
             elif add == "=":
@@ -64,7 +71,7 @@ def oracle_scalar(add, b, recv_repr, n):
     trace = ["c%d" % n]
     if b in "rs":
         return trace, (("val", recv_repr) if add == "~" else ("err", "E%d" % n))
-    if b == "n":
+    if b in "ni":
         return trace, ("val", recv_repr if add == "~" else "nil")
     return trace, ("val", str(n * 10))
 
@@ -81,7 +88,7 @@ def oracle_reduce(add, beh, init):
             if add == "~":
                 continue
             return trace, ("err", "E%d" % n)
-        if b == "n":
+        if b in "ni":
             if add == "~":
                 continue
             acc = None
@@ -94,12 +101,13 @@ def gen(chk):
     cases = []  # (family, program, trace, outcome)
     # 's' raises an error of kind StopIterErr (the kind the chain loops themselves watch for on the ITERATOR): from the callee
     # it is a failure like any other
-    vecs = list(itertools.product("vnr", repeat=3)) + [tuple("svv"), tuple("vsv"), tuple("vvs"), tuple("nsv"), tuple("vsr")]
+    vecs = list(itertools.product("vnr", repeat=3)) + [tuple("svv"), tuple("vsv"), tuple("vvs"), tuple("nsv"), tuple("vsr"),
+                                                      tuple("ivv"), tuple("viv"), tuple("vvi"), tuple("niv"), tuple("irv")]
     # list chains: literal and variable form over every receiver kind
     for kind, (recv, idx, elems) in RECVS.items():
         for add in ADDS:
             for beh in vecs:
-                if kind not in ("arr", "arrnil", "iter") and chk.tier == "quick" and (dhash((kind, add, beh)) % 3):
+                if kind not in ("arr", "arrnil", "iter", "arrinil", "arrdesc") and chk.tier == "quick" and (dhash((kind, add, beh)) % 3):
                     continue
                 for carg in ("", "[9]"):
                     if carg and kind != "arr":
@@ -128,8 +136,8 @@ def gen(chk):
                         cases.append(("layout/%s@/%s" % (add, form), pre + ml + "\nr=@{|e| e.i if e.proto == Obj && e.keys.has?('i) else e}", tr,
                                       (oc[0], oc[1].replace("<o1>", "1").replace("<o2>", "2").replace("<o3>", "3"))))
     # a nil element among objects, all three forms, every additional context; also written on a continuation line with a chain argument
-    for add in ADDS:
-        pre = "B := %{1: 'v, 2: 'v, 3: 'v}\nos := [mk(1, B), nil, mk(3, B)]\n"
+    for add, nilx in itertools.product(ADDS, ("nil", "INIL")):
+        pre = "B := %%{1: 'v, 2: 'v, 3: 'v}\nos := [mk(1, B), %s, mk(3, B)]\n" % nilx
         if add == "&":
             tr, out = ["c1", "c3"], "[10, 30]"
         elif add == "~":
@@ -169,7 +177,7 @@ def gen(chk):
                     cases.append(("digest-empty/%s@/%s/%s" % (add, form, why), body + "\nr", [], ("val", exp_empty)))
     # scalar chains: three forms on one object, and literal form on nil / value receivers
     for add in ADDS:
-        for b in "vnrs":
+        for b in "vnrsi":
             B = bmap([b, b, b])
             tr, oc = oracle_scalar(add, b, "<o>", 1)
             pre = "B := %s\no := mk(1, B)\n" % B
@@ -177,7 +185,7 @@ def gen(chk):
                 body = expr if form == "var" else "r := " + expr
                 cases.append(("scalar/%s./%s" % (add, form), pre + body + "\n(r.i if r.proto == Obj && r.keys.has?('i) else r)", tr,
                               (oc[0], oc[1].replace("<o>", "1"))))
-            for rr, rrepr in (("5", "5"), ("nil", "nil")):
+            for rr, rrepr in (("5", "5"), ("nil", "nil"), ("INIL", "nil")):
                 tr, oc = oracle_scalar(add, b, rrepr, 1)
                 cases.append(("scalar/%s./lit/%s" % (add, rr),
                               'r := %s%s.{|x| "c1".p; beh(\'%s, 1)}\nr' % (rr, add, b), tr, oc))
@@ -190,7 +198,7 @@ def gen(chk):
                 fn = '{|acc, x| ("c" + x.S).p; b := beh(%s[x], x); nil if b.nil? else (acc + b)}' % B
                 cases.append(("reduce/%s$/lit" % add, "r := [1, 2, 3]%s$%s%s\nr" % (add, init, fn), tr, oc))
                 cases.append(("reduce/%s$/var" % add, "f := %s\nr := [1, 2, 3]%s$%s^f\nr" % (fn, add, init), tr, oc))
-        for recv, res in (("[1, 2, 3]", 6), ("3", 6), ("(1:4)", 6)):
+        for recv, res in (("[1, 2, 3]", 6), ("3", 6), ("(1:4)", 6), ("ARRD.new([3, 2, 1])", 6)):
             for init, ini in (("(0)", 0), ("(100)", 100)):
                 cases.append(("reduce/%s$/prop" % add, "r := %s%s$%s+\nr" % (recv, add, init), [], ("val", str(res + ini))))
                 cases.append(("reduce/%s$/litplus" % add, "r := %s%s$%s{|acc, x| acc + x}\nr" % (recv, add, init), [], ("val", str(res + ini))))
